@@ -1,6 +1,6 @@
 #!/bin/bash
 # usage: confirm_all.sh C07 C03 ...
-for pid in "$@"; do for m in m3 m4 m5 m6 m7 m8 m9 m10 m11 m12; do
+for pid in "$@"; do for m in m3 m4 m5 m6 m7 m8 m9 m10 m11 m12 m13 m14; do
   if [ -f /tmp/mw2/$pid-out/$m/patch.diff ] && [ -f /tmp/mw2/$pid-out/$m/notes.md ] && ls /tmp/mw2/$pid-out/$m/*_test.go >/dev/null 2>&1 && [ ! -f /tmp/mw2/$pid-out/$m/confirm.log ]; then
     SEEDSRC=/tmp/mw2 /verif/tools/confirm_seed.sh $pid $m > /tmp/mw2/$pid-out/$m/confirm.log 2>&1
     tail -1 /tmp/mw2/$pid-out/$m/confirm.log
